@@ -31,6 +31,56 @@ theorem scaleAlongNormal_wf {m m' : MeshVal (List s)} (h : WF m) {a n : String} 
 example : ∃ m', (⟨.point, [0, 1], [], [(⟨3, "Position"⟩, [[1, 2, 3], [4, 5, 6]]), (⟨3, "Normal"⟩, [[0, 0, 1], [1, 0, 0]])]⟩ :
     MeshVal (List Float)).scaleAlongNormal "Position" "Normal" 0.5 = some m' := ⟨_, rfl⟩
 
+/-- `ScaleAttributeAlongNormalNodeData.Process` never fails on a well-formed (or absent) input and always returns a
+    well-formed mesh: the empty triangle mesh when something is missing, the offset mesh otherwise. -/
+theorem scaleAlongNormalNode_total (m : Option (MeshVal (List s))) (h : ∀ x, m = some x → WF x)
+    (attr nrm : Option String) (amount : Option s) :
+    ∃ m', MeshVal.scaleAlongNormalNode m attr nrm amount = some m' ∧ WF m' := by
+  have hE : WF (MeshVal.empty .triangle : MeshVal (List s)) := by
+    refine ⟨by simp [MeshVal.empty], by simp [MeshVal.empty], ?_⟩
+    simp [MeshVal.empty, Topology.Fits]
+  cases m with
+  | none => exact ⟨_, rfl, hE⟩
+  | some x =>
+    have hx := h x rfl
+    simp only [MeshVal.scaleAlongNormalNode]
+    generalize attr.getD "Position" = a
+    generalize nrm.getD "Normal" = n
+    generalize amount.getD ((0 : Nat) : s) = amt
+    cases h1 : x.hasAttr ⟨3, a⟩
+    · exact ⟨_, by simp, hE⟩
+    · cases h2 : x.hasAttr ⟨3, n⟩
+      · exact ⟨_, by simp, hE⟩
+      · simp only [Bool.not_true, Bool.false_eq_true, if_false]
+        cases hr : x.scaleAlongNormal a n amt with
+        | some m' => exact ⟨m', rfl, scaleAlongNormal_wf hx hr⟩
+        | none =>
+          exfalso
+          simp only [hasAttr] at h1 h2
+          unfold scaleAlongNormal at hr
+          split at hr
+          · rename_i pd nd hp hn
+            have e1 : pd.length = x.attrLen := hx.1 _ (Attrs.find?_mem hp)
+            have e2 : nd.length = x.attrLen := hx.1 _ (Attrs.find?_mem hn)
+            split at hr
+            · omega
+            · cases hr
+          · rename_i hno
+            simp only [attr?] at hno
+            cases hp : x.attrs.find? ⟨3, a⟩ with
+            | none => simp [hp] at h1
+            | some pd =>
+              cases hn : x.attrs.find? ⟨3, n⟩ with
+              | none => simp [hn] at h2
+              | some nd => exact hno pd nd hp hn
+
+/-- `CropAttribute3DNodeData.Process`: well-formed in ⇒ well-formed out (with or without a box) -/
+theorem cropNode_wf {m m' : MeshVal α} (h : WF m) {attr : Option String} {inside : Option (α → Bool)}
+    (hm : m.cropNode attr inside = some m') : WF m' := by
+  cases inside with
+  | none => cases hm; exact h
+  | some p => exact crop_wf h hm
+
 /-- `ScaleAttribute2D` -/
 theorem scale2D_wf {m m' : MeshVal (List s)} (h : WF m) {n : String} {o a : V2 s}
     (hm : m.scale2D n o a = some m') : WF m' := MeshVal.mapAttr_wf h hm
